@@ -204,9 +204,12 @@ func runExpire(c *ECase) runResult {
 				// the keys of the newest token must work, otherwise the forged chunks prove nothing
 				return runResult{status: "inconclusive", detail: fmt.Sprintf("a chunk protected with the active token was refused: %v", log)}
 			case st.Overdue && got == "accept":
-				key := "c17:overdue-token-chunk-accepted"
-				if st.Asis == "accept" {
-					key = "c17:superseded-token-never-removed"
+				// the store tells why: the token is still kept, or it is gone and its keys work nevertheless
+				key := "c17:removed-token-keys-still-accepted"
+				for _, id := range toks[chanID] {
+					if id == tokID[st.T] {
+						key = "c17:superseded-token-never-removed"
+					}
 				}
 				return runResult{status: "violation", key: key, obs: obs,
 					detail: fmt.Sprintf("a chunk protected with token %d was accepted although the token was replaced and created+1.25*lifetime has passed (model time %d, due %d): %v", tokID[st.T], st.Now, dueTicks, log)}
